@@ -226,6 +226,23 @@ theorem filter_output_engine (line : Bytes) (indices : List Int) (h : EngineWF l
   let ⟨⟨segs, h1, h2, _⟩, _⟩ := filter_output_eq_line line indices h.two (h.wf.le_length h.even)
   ⟨segs, h1, h2⟩
 
+/-- **The whole output of `rare filter`** (`--line`, `--num`, `--extract` included), colours on or off:
+with the colour codes that were inserted removed, the output is – for every match in the order received,
+up to the `--num` limit when there is one – the line `<source> <line number>: ` (only with `--line`)
+followed by the unmodified line text (or the extracted text with `--extract`) and a newline; nothing else.
+The palette (group colours, reset, bright green for the source, bright yellow for the number) and the
+prefix format are the source's. -/
+theorem filter_lines_output (en wl cu : Bool) (num : Nat) (ms : List FMatch)
+    (hok : ∀ m ∈ ms, cu = false → m.OK) :
+    (∃ segs, filterAll en wl cu ⟨Gen.C02.groupColors.map lit, lit Gen.C02.reset, lit Gen.C02.filterSrcColor,
+        lit Gen.C02.filterNumColor⟩ num ms 0 = .ok segs ∧
+      strip segs = ((if num = 0 then ms else ms.take num).flatMap (plainLine wl cu))) ∧
+    Gen.C02.filterPrefixFormat = "%s %s: " ∧ Gen.C02.filterSrcColor = "\x1b[32;1m" ∧
+    Gen.C02.filterNumColor = "\x1b[33;1m" := by
+  refine ⟨?_, by decide, by decide, by decide⟩
+  obtain ⟨segs, h1, h2⟩ := filterAll_strip en wl cu _ num ms 0 hok (by omega)
+  exact ⟨segs, h1, by simpa using h2⟩
+
 /-- **What "colour codes removed" means on bytes.**  `visible` is `color.StrLen`'s state machine (ESC
 starts a code, the next `m` ends it) returning the bytes it counts.  If the line itself contains no
 ESC byte, the visible bytes of the coloured output are exactly the line and the newline.  (For a line
@@ -501,5 +518,11 @@ example : Rx.findSubmatchIndex (lit "ab")
 /-- the parser: `(\w+) (?P<path>\S+)` has two groups, the second is named -/
 example : (Rx.parse (lit "(\\w+) (?P<path>\\S+)")).map (fun p => (p.ng, p.subexpNames)) = some (2, [[], [], lit "path"]) := by
   decide +kernel
+
+/-- `filter -l -n 2` on three matches: two lines `IN <n>: <line>`, and `plainLine` is what it says -/
+example : (match filterAll false true false ⟨[], [], [], []⟩ 2
+      [⟨lit "IN", 1, lit "a", [0, 1], lit "a"⟩, ⟨lit "IN", 3, lit "bc", [0, 2], lit "bc"⟩, ⟨lit "IN", 4, lit "d", [0, 1], lit "d"⟩] 0 with
+    | .ok segs => render segs
+    | .error _ => []) = lit "IN 1: a\nIN 3: bc\n" := by decide +kernel
 
 end Rare.C02
